@@ -79,10 +79,19 @@ def valve_rig(rng):
         status = {'active': 'ACTIVE', 'open': 'OPEN', 'closed': 'CLOSED'}[target]
     if rng.random() < 0.15:
         status = rng.choice(['OPEN', 'CLOSED'])
+    # a valve fixed open by the user obeys its minor-loss law in both flow directions, whatever its type (side stream)
+    import random as _random
+    side = _random.Random(int(r1 * 1000) + int(e1 * 100) + int(e2 * 10))
+    if vt != 'TCV' and side.random() < 0.3:
+        status = 'OPEN'
     spec['valves'].append({'name': 'V1', 'start': 'J1', 'end': 'J2', 'diameter': rng.choice([0.1, 0.2, 0.3]), 'type': vt,
                            'minor_loss': rng.choice([0.0, 1.0, 10.0]), 'setting': gnet._round(max(setting, 0.0)),
                            'status': status})
     r2head = gnet._round(r1 + (rng.uniform(5, 25) if (vt == 'PRV' and target == 'closed') else rng.uniform(-30, 25)))
+    if status == 'OPEN' and side.random() < 0.5:
+        r2head = gnet._round(r1 + side.uniform(5, 25))       # pushed backwards through the open valve
+        if mode != 'res_high' and side.random() < 0.7:
+            mode = 'res_high'
     if mode == 'tank':
         spec['tanks'].append({'name': 'T1', 'elevation': gnet._round(rng.uniform(30, 55) if target == 'active' else rng.uniform(30, 80)), 'init_level': 3.0, 'min_level': 0.0,
                               'max_level': 10.0, 'diameter': 15.0, 'min_vol': 0.0, 'vol_curve': None, 'overflow': False,
@@ -136,15 +145,38 @@ def run_case(c, rng):
     c.sample = {'spec_summary': gnet.signature(spec), 'HW_approx': hw, 'rig': kind == 3}
     sample = {'spec': spec, 'HW_approx': hw}
     sweep(c, wn, hw, rng, sample)
+    # pipe properties changed by time controls while the run is under way (the hydraulic model registers an updater for
+    # roughness, diameter, minor_loss and length): the law must follow the value in force at each reported step.
+    # Side stream seeded by the case: the main stream stays what it was.
+    import random as _random
+    side = _random.Random(c.index * 15485863 + len(spec['pipes']) * 101 + len(spec['junctions']))
+    changes = {}
+    if kind != 3 and spec['pipes'] and side.random() < 0.3:
+        from wntr.network import controls as ctl
+        o_ = spec['options']
+        for k in range(side.randint(1, 2)):
+            p_ = side.choice(spec['pipes'])
+            if p_['name'] in changes:
+                continue
+            attr = side.choice(['roughness', 'roughness', 'diameter', 'minor_loss', 'length'])
+            old_v = p_[attr]
+            new_v = {'roughness': gnet._round(old_v * side.choice([0.6, 0.8, 1.3]), 4), 'diameter': gnet._round(old_v * side.choice([0.7, 0.85, 1.2]), 4),
+                     'minor_loss': gnet._round(old_v * 3.0 + side.choice([0.5, 5.0, 25.0]), 4), 'length': gnet._round(old_v * side.choice([0.5, 2.0]), 3)}[attr]
+            t_ = o_['hydraulic_timestep'] * side.randint(1, max(1, o_['duration'] // o_['hydraulic_timestep'])) + side.choice([0, 0, o_['hydraulic_timestep'] // 2])
+            wn.add_control('prop_change_%d' % k, ctl.Control(ctl.SimTimeCondition(wn, '=', t_), ctl.ControlAction(wn.get_link(p_['name']), attr, new_v)))
+            changes[p_['name']] = {'attr': attr, 'old': old_v, 'new': new_v, 'time': t_}
+        if changes:
+            c.count('pipe_property_control_cases')
+            sample = dict(sample, pipe_property_changes=changes)
     tr = simobs.run_wntr(wn, deep=False, HW_approx=hw)
     if not simobs.converged(tr):
         c.inconclusive('sim_failed: %s' % (type(tr.exception).__name__ if tr.exception else 'not_converged'))
         c.set_sig(gnet.signature(spec), hw)
         return
-    buckets = check_links(c, wn, tr.results, hw, sample)
+    buckets = check_links(c, wn, tr.results, hw, sample, changes)
     # history: re-calibrate a pump curve in place (public setter), reset, run again - the law must follow the new points
     heads = [p for p in spec['pumps'] if p['type'] == 'HEAD']
-    if heads and rng.random() < 0.6:
+    if heads and rng.random() < 0.6 and not changes:
         pu = rng.choice(heads)
         cur = wn.get_curve(pu['curve'])
         old_pts = list(cur.points)
@@ -165,7 +197,18 @@ def run_case(c, rng):
     c.nontrivial = bool(spec['pumps'] or spec['valves'] or any(p['cv'] or p['minor_loss'] for p in spec['pipes']))
 
 
-def check_links(c, wn, res, hw, sample):
+class _At(object):
+    """A link as it was at one reported instant: attributes changed by a control later in the run still show their old value."""
+    def __init__(self, link, over):
+        self._link, self._over = link, over
+
+    def __getattr__(self, k):
+        if k in self._over:
+            return self._over[k]
+        return getattr(self._link, k)
+
+
+def check_links(c, wn, res, hw, sample, changes=None):
     topo = ref.Topo(wn)
     Q, S, ST = res.link['flowrate'], res.link['status'], res.link['setting']
     H = res.node['head']
@@ -177,6 +220,10 @@ def check_links(c, wn, res, hw, sample):
         closed = set(ln for ln in topo.links if S[ln].values[i] == 0)
         conn = topo.connected_nodes(closed)
         for ln, link in wn.links():
+            ch = (changes or {}).get(ln)
+            if ch is not None:
+                link = _At(link, {ch['attr']: ch['new'] if t >= ch['time'] else ch['old']})
+                c.count('link_steps_with_changed_property' if t >= ch['time'] else 'link_steps_before_property_change')
             a, b = topo.links[ln]
             if a not in conn or b not in conn:
                 c.count('skipped_isolated')
@@ -278,18 +325,58 @@ def check_links(c, wn, res, hw, sample):
     return buckets
 
 
+def sweep_valves(c, wn, m, sample):
+    """Head-loss row of every valve that the model holds Open (or of an Active TCV): +-K q^2, odd in q, whatever the valve type."""
+    import numpy as np
+    for vn, v in wn.valves():
+        st = int(v.status)
+        vt = v.valve_type
+        cons = getattr(m, vt.lower() + '_headloss', None)
+        if cons is None or vn not in cons:
+            continue
+        if st == 1:
+            K = ref.minor_k(v.minor_loss, v.diameter)
+        elif st == 2 and vt == 'TCV':
+            K = ref.minor_k(v.setting, v.diameter)
+        else:
+            continue
+        row = cons[vn].index
+        fv = m.flow[vn]
+        old = fv.value
+        fv.value = 0.0
+        r0 = float(m.evaluate_residuals()[row])
+        eps = 1e-13 * (1.0 + abs(r0))
+        for q in [float(x) for x in 10 ** np.linspace(-7, 0.5, 16)]:
+            fv.value = q
+            lp = float(m.evaluate_residuals()[row]) - r0
+            fv.value = -q
+            ln_ = float(m.evaluate_residuals()[row]) - r0
+            c.count('valve_sweep_points')
+            wit = dict(valve=vn, type=vt, status=st, q=q, row_change_pos=lp, row_change_neg=ln_, K=K, sample=sample)
+            if abs(lp + ln_) > 1e-12 * abs(lp) + 2 * eps:
+                c.violate('valve_law_not_odd', '%s %s (status %d): the head-loss row changes by %.12g at q=%g but by %.12g at q=-%g' % (vt, vn, st, lp, q, ln_, q), **wit)
+                break
+            if abs(abs(lp) - K * q * q) > 2 * eps + 1e-9 * K * q * q:
+                c.violate('valve_law_sweep', '%s %s (status %d): the head-loss row changes by %.12g at q=%g, K q^2 = %.12g' % (vt, vn, st, lp, q, K * q * q), **wit)
+                break
+        fv.value = old
+
+
 def sweep(c, wn, hw, rng, sample):
     """Pipe head-loss row of the real algebraic model, evaluated by the compiled evaluator."""
     import numpy as np
     import wntr.sim.hydraulics as hydm
     pipes = [n for n, p in wn.pipes() if str(p.initial_status) != 'Closed' and int(p.initial_status) != 0]
-    if not pipes:
+    if not pipes and not wn.num_valves:
         return
     try:
         m, upd = hydm.create_hydraulic_model(wn, HW_approx=hw)
         m.set_structure()
     except Exception as e:
         c.notes.append('sweep: model build failed: %r' % (e,))
+        return
+    sweep_valves(c, wn, m, sample)
+    if not pipes:
         return
     cons = m.approx_hazen_williams_headloss if hw == 'default' else m.piecewise_hazen_williams_headloss
     for pn in rng.sample(pipes, min(2, len(pipes))):
